@@ -115,6 +115,21 @@ var meta = map[string]*propMeta{
 		Simulated: []string{"caller goroutine scheduling (one task unparked at a time, choice stream decides)", "fake clock (testing/synctest) for block detection", "logger (no-op)"},
 		EvalsAre: "simulated runs",
 	},
+	"C06": {
+		Level: "exploration", QuickRuns: 12000, ThoroughRuns: 400000,
+		Rule: "one run = a stream of 1..50 seeded zoo values of mixed types (shared pointers also across values, >16 classes, strings / binaries around the chunk sizes) written by a writer task through one of 3 documented streaming entry-point pairs into a simulated pipe and read by a reader task, under the seeded scheduler (random / round-robin / PCT, mean quantum 1..1000 statements, optional stalls). The pipe cuts writes into segments with delivery delays, serves short reads, blocks the reader, may return (0,nil) once or data+EOF, optionally sits under a real bufio.Reader of size 16..4096, and optionally runs in lock-step (writer waits for the reader's ack). Oracles: i-th read equals the i-th written value up to the documented normalisations incl. pointer identity across values; bytes consumed after read i == end offset of value i (exact framing); no internal carrier types; no error / panic on a healthy stream; no deadlock (over-read in lock-step) and completion within the step budget. Non-trivial = at least one cut, short read, reader block or context switch; distinct = distinct (schedule, stream) fingerprints.",
+		Assumptions: []string{"values are drawn from the core domain of DESIGN.md section 5 (shapes that are known not to survive even a one-shot round trip are listed as known findings or excluded there)",
+			"expected value boundaries come from encoding the same values alone through an identical encoder (the encoder is deterministic once map order is seeded)"},
+		Real: append([]string{"bufio.Reader (when drawn)"}, commonReal...), Simulated: []string{"byte pipe between encoder and decoder (segmentation, delays, short reads, blocking, lock-step acks)", "writer / reader task scheduling", "map iteration order (seeded)", "logger (no-op)"},
+		EvalsAre: "simulated streams",
+	},
+	"C11": {
+		Level: "exploration", QuickRuns: 24000, ThoroughRuns: 600000,
+		Rule: "one run = one instance (Serializer or Encoder+Decoder over private copies of the complete maps) driven through a seeded history of 0..30 calls {encode, encode of an unrepresentable value, WriteTo aborted half-way by a writer fault at a drawn Write index and kind, decode, decode of a cut/reset/damaged stream (possibly panicking; harness recovers), streaming writes / reads, Reset}, each with a different drawn value; then a probe {Encode/ToBytes, WriteTo, Decode/ToObject, ReadFrom} on the used instance and on a fresh one: bytes, canonical value (incl. dynamic types and pointer identity) and masked error must be identical. Around every call the value passed in, the bytes passed in and both maps are snapshotted and compared; results of earlier calls are re-compared after every later call. 30% of the runs instead enumerate EVERY abort point (every Write index x 4 kinds / every cut offset) of one value followed by a probe. evaluations = probe comparisons. Non-trivial = history non-empty or enumerating mode; distinct = distinct (history, draws) fingerprints.",
+		Assumptions: []string{"map iteration order inside writeMap is pinned by the instrumentation seam, so byte equality is meaningful", "error texts are compared with pointer values masked"},
+		Real: append([]string{"bufio.Reader, bytes.Buffer"}, commonReal...), Simulated: []string{"destination io.Writer (fault-injecting)", "source reader (cut / reset / damaged)", "map iteration order (seeded)", "logger (no-op)"},
+		EvalsAre: "probe comparisons (used instance vs fresh instance)",
+	},
 	"C12": {
 		Level: "exploration", Race: true, QuickRuns: 4000, ThoroughRuns: 100000, ColdQuick: 160, ColdThorough: 3200,
 		Rule: "one run = 1..4 shared read-only zoo values (incl. cyclic graphs), one shared type map + name map, N = 2..64 caller tasks each driving its own Serializer or Encoder+Decoder (constructed directly, or obtained from shared pools of size 0..8 and returned) through a drawn script of 1..6 ops {ToBytes, ToObject, WriteTo+ReadFrom, 2-value stream}; all executed under the seeded cooperative scheduler (random / round-robin / PCT, mean quantum 1..100 statements, optional stalls) in a -race build whose hand-off is hidden from the detector. Oracles: every op result equals the result of the same op run alone on a fresh instance (bytes / canonical value rendering incl. pointer identity / masked error text), zero race reports, shared inputs and maps unchanged. A run is non-trivial when at least one context switch happened inside library code; distinct = distinct scheduling fingerprints.",
